@@ -136,6 +136,10 @@ class Filer(hioing.Mixin):
         if os.path.isabs(base):
             raise hioing.FilerError(f"Not relative {base=} path.")
 
+        if os.path.normpath(os.path.join("_", base, name)).split(os.sep)[0] != "_":
+            raise hioing.FilerError(f"Path of {base=} and {name=} not inside "
+                                    f"head directory.")
+
         self.base = base
         self.temp = True if temp else False
         self.headDirPath = headDirPath if headDirPath is not None else self.HeadDirPath
@@ -267,6 +271,10 @@ class Filer(hioing.Mixin):
 
         if os.path.isabs(base):
             raise hioing.FilerError(f"Not relative {base=} path.")
+
+        if os.path.normpath(os.path.join("_", base, name)).split(os.sep)[0] != "_":
+            raise hioing.FilerError(f"Path of {base=} and {name=} not inside "
+                                    f"head directory.")
 
         file = None
         temp = True if temp else False
@@ -433,6 +441,10 @@ class Filer(hioing.Mixin):
 
         if os.path.isabs(base):
             raise hioing.FilerError(f"Not relative {base=} path.")
+
+        if os.path.normpath(os.path.join("_", base, name)).split(os.sep)[0] != "_":
+            raise hioing.FilerError(f"Path of {base=} and {name=} not inside "
+                                    f"head directory.")
 
         # use class defaults here so can use makePath for other dirs and files
         if headDirPath is None:
